@@ -18,5 +18,12 @@ Patterns == { PAnd(<<I("a")>>), PAnd(<<PIns("a", <<X>>)>>), PAnd(<<I("a"), I("b"
               PAnd(<<WithTimes(PAnd(<<I("a"), I("b")>>), 1, 2)>>), PAnd(<<PIns("a", <<OOr(<<X, Y>>)>>), I("b")>>) }
 Bodies == { <<"a", <<"x">> >>, <<"a", <<"y">> >>, <<"b", <<"x">> >>, <<"ab", <<"y">> >> }
 Listings == ListingsOver(Bodies, 0, MaxListing)
+\* patterns that can match the empty sequence, and listings in which addresses repeat (objdump of an
+\* object with several sections that all start at 0): validated on the raw results only (Trace_Modes)
+NullablePatterns == { PAnd(<<PInsT("a", <<>>, 0, 2)>>), PAnd(<<PInsT("b", <<OLit("x")>>, 0, 1), PInsT("a", <<>>, 0, 1)>>),
+                      PAnd(<<WithTimes(POr(<<I("a"), I("b")>>), 0, 2)>>) }
+DupAddr(body) == [n \in DOMAIN body |-> Ins(<<"0", "4", "0", "4", "8">>[n], body[n][1], body[n][2])]
+DupListings == { DupAddr(s) : s \in SeqsBetween(Bodies, 3, 4) }
 Universe == [patterns |-> SetToSeq(Patterns), listings |-> SetToSeq(Listings)]
+UniverseN == [patterns |-> SetToSeq(NullablePatterns \cup Patterns), listings |-> SetToSeq(Listings \cup DupListings)]
 =============================================================================
